@@ -564,7 +564,8 @@ package compose
 //@   ensures[kind] result1 == nil && c.isStream ==> forall(k string :: in(k, result0) ==> true)
 //@   loop 1:
 //@     modifies map(result), chanCtl(c), chanValsField(c)
-//@     invariant[ok] cmOK(c) && handlersOK(c)
+//@     invariant[ok_h] handlersOK(c)
+//@     invariant[ok_cm] cmOK(c)
 //@     invariant[keys] forall(k string :: in(k, result) ==> in(k, $seen))
 
 //@ func (*channelManager).updateAndGet
